@@ -355,3 +355,16 @@ UNITS['retire_is'] = {
 }
 ob(name='retire_is.retire_until.iter', kind='IS', props=['C05'], unit='retire_is', harness='h_retire_is.c', entry='r_iter', outline={'RETIRE_UNTIL': 'runtil'}, enforce='runtil__iter', min_reach=5,
    bound='none: sequences of any length (inductive step over the outlined loop of the real retire_until; init and exit parts are empty)')
+
+UNITS['dtor_is'] = {
+    'opaque': [' get_lock$'], 'dyn_types': [],
+    'ghost_fields': {r'^call_matcher_base<int\(int\)>$': ['unsigned long g_pos', 'int g_md_calls'], r'^sequence_matcher$': ['unsigned long g_pos']},
+    'roots': {'DECOMMISSION': '17call_matcher_listIFiiEE12decommissionEv', 'CMB': r'rec:^call_matcher_base<int\(int\)>$', 'CML': r'rec:^call_matcher_list<int\(int\)>$',
+              'LE': r'rec:^list_elem<call_matcher_base<int\(int\)>>$', 'ST_DTOR_BODY': '13sequence_typeD1Ev', 'SM': 'rec:^sequence_matcher$', 'ST': 'rec:^sequence_type$', 'LES': r'rec:^list_elem<sequence_matcher>$'},
+    'stub_aliases': {'VS_MOCK_DESTROYED': r'^vs_.*call_matcher_baseIFiiEE14mock_destroyed'},
+}
+for al, short, e, props, label in (('DECOMMISSION', 'decom', 'd', ['C04', 'C14'], 'decommission'), ('ST_DTOR_BODY', 'stdtor', 's', ['C06', 'C14', 'C15'], 'sequence_type_dtor')):
+    for part in ('iter', 'exit'):
+        ob(name='dtor_is.%s.%s' % (label, part), kind='IS', props=props, unit='dtor_is', harness='h_dtor_is.c', entry='%s_%s' % (e, part), outline={al: short}, defines={'WANT_' + short.upper(): 1},
+           enforce='%s__%s' % (short, part), min_reach=1, bound='none: lists of any length (inductive step over the outlined loop of the real function)')
+LEVELS['C04'] = 'proof'
